@@ -24,7 +24,10 @@ for b, fns in (("cfb_e", ["beltCFBStart", "beltCFBStepE"]), ("cfb_d", ["beltCFBS
             GROUPS.append(chunk(b, lx, ly, fns, tier="quick" if (lx in (1, 16, 17) and ly in (1, 17)) else "thorough"))
     # three fragments: a short second fragment served from the buffered gamma / partial block, then a block boundary
     for lx, ly, lz in ((5, 3, 20), (17, 1, 16), (1, 15, 17), (10, 2, 4)):
-        GROUPS.append(chunk(b, lx, ly, fns, lz=lz))
+        GROUPS.append(chunk(b, lx, ly, fns, lz=lz, tier="thorough" if b == "mac" else "quick", required=(b != "mac")))
+        GROUPS.append(G("belt.%s.x%d.y%d.z%d.search" % (b, lx, ly, lz), "harness/C10/belt_chunks.c", "h_" + b, BELT,
+                        defs=["LX=%d" % lx, "LY=%d" % ly, "LZ=%d" % lz], level="N", backend="native", search=20000, fn=fns,
+                        note="native run of the three-fragment harness; NOT proof"))
 def chunk_native(bundle, lx, ly, fns):
     return G("belt.%s.x%d.y%d.search" % (bundle, lx, ly), "harness/C10/belt_chunks.c", "h_" + bundle, BELT, defs=["LX=%d" % lx, "LY=%d" % ly],
              level="N", backend="native", search=20000, fn=fns,
